@@ -10,6 +10,7 @@ import NV.C04.Lemmas
 import NV.C04.LemmasDepth
 import NV.C04.LemmasCost
 import NV.C04.LemmasSizes
+import NV.C04.LemmasStack
 
 namespace NV.C04
 
@@ -28,7 +29,7 @@ theorem limit_error_not_swallowed (cfg : Cfg) (fuel : Nat) (sh : Sh) :
 theorem limit_error_reaches_next_frame (cfg : Cfg) (fuel : Nat) (sh : Sh) (s : St) (k : Kind)
     (h : (exec cfg fuel .catch_ sh s).1 = .raised k) (hk : k.isLimit = true) :
     limitSet (exec cfg fuel .catch_ sh s).2 :=
-  exec_BitsOk cfg fuel sh s k h hk
+  (exec_BitsOk cfg fuel .catch_ sh s k h hk).1
 
 /-- a catch frame around anything that exhausts a limit never completes: the error goes on to the enclosing
     context (stated for one frame; by `limit_error_reaches_next_frame` it repeats for every enclosing frame) -/
@@ -36,7 +37,7 @@ theorem catch_reraises_limit_error (cfg : Cfg) (fuel : Nat) (ctx : Ctx) (body : 
     (hd : ¬ (s.depth - 1 == cfg.maxDepth - 1) = true)
     (h : exec cfg fuel .catch_ body (pushCatchFrame s) = (.raised k, s2)) (hk : k.isLimit = true) :
     ∃ k', (exec cfg (fuel + 1) ctx (.catch_ body) s).1 = .raised k' ∧ k'.isLimit = true := by
-  have hb := exec_BitsOk cfg fuel body (pushCatchFrame s) k (by rw [h]) hk
+  have hb := (exec_BitsOk cfg fuel .catch_ body (pushCatchFrame s) k (by rw [h]) hk).1
   rw [h] at hb
   unfold exec
   simp only [hd, h]
@@ -47,36 +48,46 @@ theorem catch_reraises_limit_error (cfg : Cfg) (fuel : Nat) (ctx : Ctx) (body : 
   rw [e1, e2]
   rcases hb with hc | hf
   · rw [hc]; simp only [if_true]
-    exact ⟨.cost, (raise_ticks cfg ctx .cost _).2.2, rfl⟩
+    exact ⟨.cost, rfl, rfl⟩
   · cases hc : hasEs s2 esMaxEvalCost
     · rw [hf]; simp only [if_true, Bool.false_eq_true, if_false]
-      exact ⟨.deep, (raise_ticks cfg ctx .deep _).2.2, rfl⟩
+      exact ⟨.deep, rfl, rfl⟩
     · simp only [if_true]
-      exact ⟨.cost, (raise_ticks cfg ctx .cost _).2.2, rfl⟩
+      exact ⟨.cost, rfl, rfl⟩
 
 example : (evaluate { maxCost := 50, maxDepth := 20, stackSize := 100, handlerCatches := true } 1000
     (.catch_ (.catch_ .spin))).1 = .raised .cost := by decide
 
-/-- **eval_bounded**.  For every positive budget, every program shape that does not go through a safe apply, every
-    configuration and fuel: the instructions executed in one evaluation never exceed the budget. -/
-theorem eval_bounded (cfg : Cfg) (fuel : Nat) (sh : Sh) (hpos : 0 < cfg.maxCost) (hns : sh.noSafe = true) :
-    ((evaluate cfg fuel sh).2.ticks : Int) ≤ cfg.maxCost := by
-  have h := exec_TB cfg fuel .driver (.call 0 sh) (St.start cfg) (by simpa [Sh.noSafe] using hns) hpos
-  have : phi (St.start cfg) = cfg.maxCost := by simp [phi, St.start]
-  rw [this] at h
+/-- **eval_bounded** (no hypothesis on the budget, no exclusion of program shapes).  The budget the driver runs
+    with is the configured value clamped to at least 1 (rc.cpp / set_eval_limit, `clampCost`).  For every
+    configured value, every program shape, every configuration and fuel: the instructions executed in one
+    evaluation never exceed the budget by more than one per safe apply the program makes (a safe apply that
+    stops an eval-cost error leaves its caller exactly one tick). -/
+theorem eval_bounded (raw : Int) (cfg : Cfg) (hcfg : cfg.maxCost = clampCost raw) (fuel : Nat) (sh : Sh) :
+    ((evaluate cfg fuel sh).2.ticks : Int) ≤ clampCost raw + sh.safeWeight := by
+  have hpos : 0 < (St.start cfg).cost := by
+    show 0 < cfg.maxCost
+    rw [hcfg]; unfold clampCost; split <;> omega
+  have h := exec_TB cfg fuel .driver (.call 0 sh) (St.start cfg) hpos
+  have hphi : phi (St.start cfg) = cfg.maxCost := by simp [phi, St.start]
+  have hw : (Sh.call 0 sh).safeWeight = sh.safeWeight := by simp [Sh.safeWeight]
+  rw [hphi, hw, hcfg] at h
   exact h.2
 
-/-- ... and an evaluation that is not over after `budget - 1` instructions is ended by the limit error: the only
-    results with all of the budget used are errors (nothing completes normally on the last tick) -/
-theorem eval_completes_below_budget (cfg : Cfg) (fuel : Nat) (sh : Sh) (hpos : 0 < cfg.maxCost) (hns : sh.noSafe = true)
-    (hok : (evaluate cfg fuel sh).1 = .ok) : ((evaluate cfg fuel sh).2.ticks : Int) < cfg.maxCost := by
-  have h := exec_TB cfg fuel .driver (.call 0 sh) (St.start cfg) (by simpa [Sh.noSafe] using hns) hpos
-  have hphi : phi (St.start cfg) = cfg.maxCost := by simp [phi, St.start]
-  have := h.1 (by unfold evaluate at hok; rw [hok]; rfl)
-  rw [hphi] at this
-  unfold evaluate
-  unfold phi at this
-  omega
+/-- programs that make no safe apply: exactly the budget -/
+theorem eval_bounded_exact (raw : Int) (cfg : Cfg) (hcfg : cfg.maxCost = clampCost raw) (fuel : Nat) (sh : Sh)
+    (hns : sh.safeWeight = 0) : ((evaluate cfg fuel sh).2.ticks : Int) ≤ clampCost raw := by
+  have := eval_bounded raw cfg hcfg fuel sh
+  rw [hns] at this
+  simpa using this
+
+/-- any positive budget bounds the evaluation directly (the clamp makes every configured budget positive) -/
+theorem eval_bounded_of_pos (cfg : Cfg) (fuel : Nat) (sh : Sh) (hpos : 0 < cfg.maxCost) :
+    ((evaluate cfg fuel sh).2.ticks : Int) ≤ cfg.maxCost + sh.safeWeight := by
+  have hc : cfg.maxCost = clampCost cfg.maxCost := by unfold clampCost; split <;> omega
+  have := eval_bounded cfg.maxCost cfg hc fuel sh
+  rw [← hc] at this
+  exact this
 
 example : (evaluate { maxCost := 50, maxDepth := 20, stackSize := 100, handlerCatches := false } 1000
     (.seq (.work 10) (.catch_ (.cb 2 (.work 5))))).1 = .ok := by decide
@@ -90,6 +101,26 @@ theorem depth_bounded (cfg : Cfg) (fuel : Nat) (sh : Sh) (h0 : 0 ≤ cfg.maxDept
 
 example : (evaluate { maxCost := 5000, maxDepth := 4, stackSize := 1000, handlerCatches := false } 40
     (.recur 0)).2.maxDepth = 4 := by decide
+
+/-- **stack_checked_pushes_bounded** (memory safety of the value stack, for the pushes of the limits machine: the
+    checked pushes of function locals and do_catch's single unchecked push).  With `StackSize ≥ 5` the height
+    never exceeds `StackSize - 4`: `sp` stays at least 4 slots below the end of the allocation in every
+    evaluation of every shape.  (Unchecked argument pushes are outside the machine: open finding of C01.) -/
+theorem stack_checked_pushes_bounded (cfg : Cfg) (fuel : Nat) (sh : Sh) (h5 : 5 ≤ cfg.stackSize) :
+    (evaluate cfg fuel sh).2.maxSp ≤ cfg.stackSize - 4 ∧ (evaluate cfg fuel sh).2.maxSp < cfg.stackSize := by
+  have hinv : StackInv cfg (St.start cfg) := by
+    refine ⟨?_, ?_⟩
+    · show (0 : Int) ≤ spEnd cfg
+      unfold spEnd stackSlack; omega
+    · show (0 : Int) ≤ spEnd cfg + 1
+      unfold spEnd stackSlack; omega
+  have h := (exec_StackRes cfg fuel .driver (.call 0 sh) (St.start cfg) hinv).1
+  unfold spEnd stackSlack at h
+  unfold evaluate
+  constructor <;> omega
+
+example : (evaluate { maxCost := 5000, maxDepth := 100, stackSize := 30, handlerCatches := false } 60
+    (.catch_ (.recur 7))).2.maxSp = 21 := by decide
 
 /-- **sizes_bounded**.  Every value constructor returns an error or a value whose size is within the configured
     limit of its type - for all operand sizes (themselves within the limit, as every operand was built by a
@@ -124,6 +155,19 @@ theorem sizes_bounded (l : Int) (hl : LimitOk l) :
    fun _ _ _ _ h => implodeString_bounded hl h,
    fun _ _ _ h => by have := replaceFinish_bounded h; have := hl.1; omega⟩
 
+/-- the constructors that copy or select from an operand (copy, sort_array, map, filter, unique_array, array `-` / `&`,
+    case conversions, keys / values, allocate_mapping): the result is never larger than the operand, which is
+    within its limit; keys / values go through allocate_empty_array and respect MaxArraySize -/
+theorem sizes_bounded_derived (l : Int) (hl : LimitOk l) :
+    (∀ (n sz : Nat), (n : Int) ≤ l → sameSize n = .ok sz → (sz : Int) ≤ l) ∧
+    (∀ (n kept sz : Nat), (n : Int) ≤ l → partOf n kept = .ok sz → (sz : Int) ≤ l) ∧
+    (∀ (c sz : Nat), mapKeys c l = .ok sz → (sz : Int) ≤ l) ∧
+    (∀ n sz, allocateMapping n = .ok sz → (sz : Int) ≤ l) :=
+  ⟨fun n sz hn h => by have := sameSize_eq n h; omega,
+   fun n kept sz hn h => by have := partOf_le n kept h; omega,
+   fun _ _ h => mapKeys_bounded hl h,
+   fun _ _ h => by unfold allocateMapping at h; injection h with h; have := hl.1; omega⟩
+
 example : LimitOk 200000 := by unfold LimitOk; omega
 example : repeatString 2 (-9223372036854775808) 1000 = .ok 0 := by decide
 example : repeatString 2 501 1000 = .err := by decide
@@ -134,13 +178,12 @@ theorem replace_scan_in_bounds (limit : Nat) (steps : List RStep) (d : Nat) (hl 
     (h : replaceRun limit steps 0 = some d) : d < limit := by
   rcases replaceRun_lt h with h1 | h1 <;> omega
 
-/-- **sprintf_bounded**: sprintf's buffer is bounded by USHRT_MAX, so its result respects MaxStringLength whenever
-    the limit is at least USHRT_MAX (for smaller limits see Witness.sprintf_exceeds_small_limit) -/
-theorem sprintf_bounded (l : Int) (real len sz : Nat) (hl : (ushrtMax : Int) ≤ l) (hreal : 0 < real)
-    (h : sprintfAdd real len = .ok sz) : (sz : Int) ≤ l := by
-  rcases sprintfAdd_bounded h with h1 | h1
-  · omega
-  · omega
+/-- **sprintf_bounded**: the finished result of sprintf respects MaxStringLength for every limit (the buffer itself
+    is bounded by USHRT_MAX while it is built: `sprintfAdd_bounded`) -/
+theorem sprintf_bounded (l : Int) (hl : LimitOk l) (real sz : Nat) (h : sprintfFinish real l = .ok sz) : (sz : Int) ≤ l :=
+  sprintfFinish_bounded hl h
+
+example : sprintfFinish 300 200 = .err := by decide
 
 /-- the 16-bit `size` field: with MaxArraySize ≤ 65535 the size an array reports is the size that was asked for
     (for larger limits see Witness.array_size_wraps) -/
